@@ -204,6 +204,7 @@ func (x *advX) replayCmds() [][]any {
 		"/localhop/net/b/32=DV":                           "adv",
 		x.R.cfg.AdvertisementSyncPassivePrefix().String(): "sync",
 		x.R.cfg.PrefixTableSyncPrefix().String():          "pfx",
+		"/net/d/32=DV":                                    "dst", // the route the installer holds for the destination P advertises
 	}
 	for _, c := range x.R.r.VerifDrainCmds() {
 		if c.Module != "rib" || c.Args == nil || c.Args.Name == nil || c.Args.FaceId == nil {
@@ -223,7 +224,7 @@ func (x *advX) replayCmds() [][]any {
 		}
 	}
 	out := [][]any{}
-	for _, k := range []string{"adv", "pfx", "sync"} {
+	for _, k := range []string{"adv", "dst", "pfx", "sync"} {
 		fs := []int{}
 		for f := range x.nroutes[k] {
 			fs = append(fs, int(f))
